@@ -31,6 +31,10 @@ def make_small_files(wd, rnd):
         chunks = [bytes(rnd.getrandbits(8) for _ in range(n)) for n in sizes]
         buf, _ = ref.build_file(chunks, comp_type=0, hash_type=1, chunk_hash_type=(1, 3, 0)[i % 3])
         p = os.path.join(wd, "small%d.zck" % i); open(p, "wb").write(buf); out.append((p, buf))
+    # a padded header: the data (and hence every range) starts at lead + stored header length, not where the sections end
+    chunks = [bytes(rnd.getrandbits(8) for _ in range(n)) for n in (0, 4, 1, 6, 2, 3)]
+    buf, _ = ref.build_file(chunks, comp_type=0, hash_type=1, chunk_hash_type=3, pad=23)
+    p = os.path.join(wd, "small-padded.zck"); open(p, "wb").write(buf); out.append((p, buf))
     return out
 
 
